@@ -365,3 +365,20 @@ def c11(ctx, replay):
                     "checks every point against the declarative result; non-trivial = distinct (records, expression)",
                assumptions=["which members tie-break into topk/bottomk and the order of equal values in sort are left open",
                             "inputs lie inside every window (window edges are C09's subject)"])
+
+
+@prop("C12")
+def c12(ctx, replay):
+    inv = ["ArithMatches", "SetOpsMatch", "JoinShape", "SideMatters", "DivModByZero"]
+    mcs = [dict(name="binop", module="MC_BinOp", consts=dict(Pools=V.tla_str(T(ctx, "quick", "full"))), invariants=inv)]
+    return std(ctx, "C12", mc=mcs, harness_cmd="metric", harness_opts=["mode=binop"], trace_module="Trace_Metric",
+               nrand=T(ctx, 2000, 30000), replay=replay, nontrivial=_metric_nontrivial, exhaustive=True, chunk_events=20000,
+               rule="step 1: binOpIterator (map of left samples, walk of right samples), and/or/unless on key sets and the literal "
+                    "iterator (literal on its written side) vs the declarative join, for every pair of vectors over the label zone with "
+                    "counts 0..2 per series (overlapping, disjoint, empty; 2 zone values quick, 3 incl. 'no zone' thorough), all 15 "
+                    "operators, scalars {0, 2, -3, 1/2}, both sides, with and without bool; every case is replayed as two selections "
+                    "({app=a}, {app=b}) aggregated by zone, instant and over a range; random driver: differently grouped sides, "
+                    "bytes/count inputs, nested arithmetic, comparisons between vectors; TLC checks every point (a comparison that does "
+                    "not hold: absent or 0); non-trivial = distinct (records, expression)",
+               assumptions=["fractional exponents and scalar o scalar expressions are outside the modelled domain (generators avoid them)",
+                            "where a comparison does not hold the series may be absent or 0, with or without bool"])
